@@ -81,8 +81,12 @@ class LabGen:
     def fresh_type_name(self):
         r = self.r
         for _ in range(1000):
-            if self.p.hostile_names and r.random() < 0.15:
+            x = r.random()
+            if self.p.hostile_names and x < 0.15:
                 n = r.choice(PRELUDE_TYPES)
+            elif self.p.hostile_names and x < 0.21:
+                # type names that snake-case to a Rust keyword (the per-type module is named after them)
+                n = r.choice(KEYWORDS).capitalize()
             else:
                 n = upper_camel(r.sample(WORDS, r.choice([1, 2, 2, 3])))
             low = n.lower()
@@ -402,6 +406,10 @@ class LabGen:
                         markers = [SAFE_MARKER]
                     elif x < 0.34:
                         tags = ["safe"]
+                    elif x < 0.41:
+                        tags = [r.choice(NOISE_TAGS)]
+                    elif x < 0.45:
+                        markers = [r.choice(NOISE_MARKERS)]
                     pid = None
                     if kind == "path":
                         path += "/{" + an + "}"
